@@ -1259,7 +1259,7 @@ pub fn wire_run_case(case: &Value) -> crate::netrun::CaseResult {
             continue; // rejections and loader panics are judged by the function part
         };
         n += 1;
-        let sub = json!({"engine":"ewire","check":"c17","route":case["route"],"group":group,"yaml":yaml});
+        let sub = json!({"engine":"ewire","check":"c17","route":case["route"],"group":group,"yaml":yaml,"index":ci,"thorough":case["thorough"]});
         let mk = |oracle: &str, what: String| Violation::new(oracle, format!("on the wire (default route: {}): {what}", case["route"].as_str().unwrap_or("")), sub.clone()).sig("oracle", oracle).sig("part", "wire");
         let svc = {
             let _g = w.rt.enter();
@@ -1390,20 +1390,14 @@ pub fn run(tier: &str, replay: Option<Value>) -> ! {
             rep.finish();
         }
         if case["engine"].as_str() == Some("ewire") {
-            // one configuration on the wire: find it in the wire list and run a one-element slice
+            // one configuration on the wire: the case names its index in the wire list of its tier
             crate::enet::isolate_network();
-            let th = true;
-            let list = wire_cfgs(th);
-            let y = case["yaml"].as_str().unwrap_or("");
-            // (the recorded text may carry the extra top-level addresses line)
-            let y = y.replacen("addresses: ['2001:db8:0:1::/64', 192.0.2.0/24]\n", "", 1);
-            let y = y.as_str();
-            match list.iter().enumerate().position(|(i, (_, c))| yaml_of(c) == y && (!case["yaml"].as_str().unwrap_or("").contains("addresses: ['2001:db8:0:1::/64'") || i % 3 == 1)) {
-                Some(i) => {
+            match (case["index"].as_u64(), case["thorough"].as_bool()) {
+                (Some(i), Some(th)) if (i as usize) < wire_cfgs(th).len() => {
                     let one = json!({"engine":"ewire","check":"c17","route":case["route"],"from":i,"to":i + 1,"thorough":th});
                     crate::netrun::replay_one(&mut rep, &one, wire_run_case);
                 }
-                None => rep.machinery_error("replay case not found in the wire list"),
+                _ => rep.machinery_error("replay case does not name its index in the wire list"),
             }
             rep.finish();
         }
